@@ -49,12 +49,14 @@ func init() {
 		text := func(n ast.Node) string {
 			var b bytes.Buffer
 			_ = printer.Fprint(&b, e.fset, n) // a bare node is printed without comments
-			return b.String()
+			return strings.Join(strings.Fields(b.String()), " ") // layout depends on the original positions
+
 		}
-		mirrored := text(add.Body)
+		mirrored := strings.ReplaceAll(text(add.Body), "updateTime.Add(", "updateTime.ADD(") // time.Time.Add, not a vector
 		for _, r := range [][2]string{{`\.AddDelta\(`, ".SubDelta("}, {`\.Add\(`, ".Sub("}, {`\.Insert\(`, ".Delete("}} {
 			mirrored = regexp.MustCompile(r[0]).ReplaceAllString(mirrored, r[1])
 		}
+		mirrored = strings.ReplaceAll(mirrored, "updateTime.ADD(", "updateTime.Add(")
 		fmt.Fprintf(&e.out, "def deleteMirrorsAdd : Bool := %v\n", mirrored == text(del.Body))
 
 		recvName := func(fd *ast.FuncDecl) string {
